@@ -769,6 +769,9 @@ func genDoc(r *hx.Rand) []byte {
 		default:
 			sb.WriteString(genLine(r))
 			if i+1 < n || r.Chance(1, 2) {
+				if r.Chance(1, 8) {
+					sb.WriteString("\r") // CRLF line ending
+				}
 				sb.WriteString("\n")
 			}
 		}
@@ -975,7 +978,7 @@ func main() {
 		}
 		// long lines
 		for _, k := range longKinds {
-			for _, n := range []int{4090 + r.Intn(12), 65531 + r.Intn(3), 65536 + r.Intn(40)} {
+			for _, n := range []int{900 + r.Intn(400), 4090 + r.Intn(12), 65531 + r.Intn(3), 65536 + r.Intn(40)} {
 				if (k == "directives" || k == "quote-spaces") && n > 5000 && !o.Thorough() {
 					n = 65536
 				}
